@@ -15,10 +15,10 @@ while read -r patch ids; do
   rm -rf "$scratch"; mkdir -p "$scratch"
   rsync -a --exclude .git /repo/ "$scratch"/
   if ! (cd "$scratch" && patch -p1 -s --no-backup-if-mismatch < "/verif/$patch" >/dev/null 2>&1); then
-    echo "SELFTEST $patch: patch does not apply to the current tree"; rm -rf "$scratch"; continue
+    echo "SELFTEST $patch: patch does not apply to the current tree"; fail=1; rm -rf "$scratch"; continue
   fi
   if ! (cd "$scratch" && go build ./... >/dev/null 2>&1); then
-    echo "SELFTEST $patch: does not compile"; rm -rf "$scratch"; continue
+    echo "SELFTEST $patch: does not compile"; fail=1; rm -rf "$scratch"; continue
   fi
   for id in $ids; do
     start=$(date +%s)
